@@ -115,7 +115,11 @@ type script struct {
 	tmid, tout, tupo, tresp hdrTab
 }
 
-var hostOf = map[string]string{"d": "a.test", "n": "n.test", "k": "skip.test", "w": "x.w.test", "m": "m.test"}
+var hostOf = map[string]string{"d": "a.test", "n": "n.test", "k": "skip.test", "w": "x.w.test", "m": "m.test",
+	// requests that reach the HTTP->HTTPS redirect server automatic HTTPS creates for the two TLS servers
+	"r": "tls-a.test", "q": "tls-b.test",
+	// the probe sets the access_logger_names variable (what the log_name directive does) / the log_skip variable
+	"v": "v.test", "s": "s.test"}
 
 func (sc *script) line(obs bool) string {
 	p := []string{"site", b2s(sc.creds), strconv.Itoa(sc.e), sc.hc, strconv.Itoa(sc.rw), sc.route, strconv.Itoa(sc.status),
@@ -194,6 +198,12 @@ func (p *Probe) ServeHTTP(w http.ResponseWriter, r *http.Request, next caddyhttp
 			r.Header[k] = append([]string(nil), v...)
 		}
 		sc.tmid = cloneTab(r.Header)
+		switch sc.hc {
+		case "v":
+			caddyhttp.SetVar(r.Context(), caddyhttp.AccessLoggerNameVarKey, []any{"v1", ""})
+		case "s":
+			caddyhttp.SetVar(r.Context(), caddyhttp.LogSkipVar, true)
+		}
 		if !sc.setInErrorRoute() {
 			for k, v := range sc.tset {
 				w.Header()[k] = append([]string(nil), v...)
@@ -482,7 +492,11 @@ func configJSON() string {
   "filt":{"level":"DEBUG","writer":{"output":"verif_c20_mem","sink":"filt"},"include":["http.log.access"],
           "encoder":{"format":"filter","wrap":{"format":"json"},"fields":` + filterFields + `}}
  }},
- "apps":{"http":{"servers":{
+ "apps":{"http":{"http_port":39080,"https_port":39443,"servers":{
+  "tlsA":{"listen":[":39443"],"automatic_https":{"disable_certificates":true},"logs":{"should_log_credentials":true},
+          "routes":[{"match":[{"host":["tls-a.test"]}],"handle":[{"handler":"verif_c20_probe","pos":"final"}]}]},
+  "tlsB":{"listen":[":39444"],"automatic_https":{"disable_certificates":true},"logs":{"should_log_credentials":false,"trace":true,"logger_names":{"tls-b.test":["rb"]}},
+          "routes":[{"match":[{"host":["tls-b.test"]}],"handle":[{"handler":"verif_c20_probe","pos":"final"}]}]},
   "def":` + strings.Replace(serverJSON(39105, false, false), `"should_log_credentials":false,`, "", 1) + `,
   "off":` + serverJSON(39101, false, false) + `,
   "on":` + serverJSON(39102, true, false) + `,
@@ -612,7 +626,14 @@ func (sc *script) path() string {
 	return p + "/h/x"
 }
 
+// redirectServer is the server automatic HTTPS adds for HTTP->HTTPS redirects; its log configuration is a
+// clone of the configuration of the last (by name) server that qualifies — tlsB, credentials off.
+const redirectServer = "remaining_auto_https_redirects"
+
 func (sc *script) serverName() string {
+	if sc.hc == "r" || sc.hc == "q" {
+		return redirectServer
+	}
 	if !sc.creds && sc.e == 0 && sc.rw == 0 {
 		return "def" // a server whose `logs` object does not mention should_log_credentials at all
 	}
